@@ -531,10 +531,11 @@ def Machine.processStart (env : Env) (m : Machine) (r : Round) : Machine × List
   else
     let m := { m with isHeightStarted := true }
     let (m', a) := m.startRound env r
+    -- `startEntry := wal.Start(s.state.height)`: a copy of the height being started (since
+    -- f170e6a; before that the entry aliased the state's height field and showed the height
+    -- AFTER a commit inside this call).
     let (m'', acts) := m'.processLoop env [a] none
-    -- `WriteWAL{Entry: (*wal.Start)(&s.state.height)}` aliases the state's height field: the caller
-    -- reads the entry after the loop, i.e. it sees the height AFTER a commit inside this call.
-    (m'', .writeWAL (.start m''.state.height) :: acts)
+    (m'', .writeWAL (.start m.state.height) :: acts)
 
 def Machine.processMessage (env : Env) (m : Machine) (h : Height) (r : Round) (w : WalEntry) :
     Machine × List Action :=
